@@ -365,6 +365,38 @@ def rule_D6(repo: Repo) -> RuleResult:
     return res
 
 
+def rule_D6b(repo: Repo) -> RuleResult:
+    """chunked keys: partial counts are merged into an integer sum target (not the boolean placeholder)"""
+    res = RuleResult("D6b", "chunked-key merge target of counting operations is an integer sum target")
+    ch = Chain(repo)
+    for eff in ["size", "count", "sum", "min", "max", "first", "last", "sum_squares"]:
+        ev = Evaluator(repo)
+        ev.run(ch.across, {"func_name": cs(eff)})
+        tgt = [r for r in ev.calls if isinstance(r.callee, FuncRef)
+               and r.callee.funcs[0].qualname == "_build_target_for_groupby"]
+        if len(tgt) != 1:
+            raise AnalysisError("D6b: merge target allocation not found in the chunked path")
+        b = bind_call(ev, tgt[0], tgt[0].callee.funcs[0])
+        op = b.values.get("operation")
+        if not isinstance(op, CS) or len(op.vals) != 1:
+            raise AnalysisError(f"D6b: merge target operation for {eff!r} is not constant ({op!r})")
+        o = op.single
+        construct = f"chunked merge of {eff!r}: target built for {o!r}"
+        if eff in ("size", "count"):
+            good = o not in ("count", "nancount") and "sum" in o
+            why = "counts are added up in an integer array"
+        else:
+            good = (o == eff) or (eff == "sum_squares" and "sum" in o)
+            why = "initial value / dtype of the operation itself"
+        if good:
+            res.ok(ch.across, tgt[0].node, construct, why)
+        else:
+            res.bad(ch.across, tgt[0].node, construct,
+                    "the merged array is the boolean placeholder of a counting operation (or another operation's target): "
+                    "with transform=True the broadcast counts come back as booleans / with the wrong neutral value")
+    return res
+
+
 def _single_path_result(ch: Chain, name: str) -> Optional[str]:
     """which element of `result, count = worker(...)` reaches `result` at the end of the n_threads == 1 arm"""
     ev = Evaluator(ch.repo)
@@ -590,8 +622,13 @@ def rule_D4(repo: Repo) -> RuleResult:
             for k in kc[0].node.keywords:
                 if k.arg == "reduce_func":
                     rf = ev2.eval(k.value, kc[0].env)
-            if not isinstance(rf, FuncRef) or len(rf.funcs) != 1:
+            if not isinstance(rf, FuncRef):
                 raise AnalysisError(f"D4: reducer for {op!r}, skip_na={skip} does not resolve ({rf!r})")
+            if len(rf.funcs) != 1:
+                res.bad(ac, kc[0].node, f"{fname}(skip_na={skip}) -> {' | '.join(x.qualname for x in rf.funcs)}",
+                        "the reducer of this cumulative operation depends on something other than the operation and skip_na "
+                        "(several reducers reach the kernel): with skip_na=True a non-skipping reducer may run")
+                continue
             cls = _class_of(rf.funcs[0])
             base = {"sum": "SUM", "min": "MIN", "max": "MAX", "count": "COUNT"}[op]
             want_cls = {("SUM", True): "SUM_SKIPNULL", ("SUM", False): "SUM", ("MIN", True): "MIN_SKIPNULL",
